@@ -1186,6 +1186,7 @@ func (x Expr) FirstFound(data any) (any, bool) {
 								switch rt.Kind() {
 								case reflect.Ptr, reflect.Slice, reflect.Struct, reflect.Array, reflect.Map:
 									stack = append(stack, v)
+									stack = append(stack, fi|descentChildFlag)
 								}
 							}
 						}
@@ -1212,6 +1213,7 @@ func (x Expr) FirstFound(data any) (any, bool) {
 								switch rt.Kind() {
 								case reflect.Ptr, reflect.Slice, reflect.Struct, reflect.Array, reflect.Map:
 									stack = append(stack, v)
+									stack = append(stack, fi|descentChildFlag)
 								}
 							}
 						}
@@ -1239,6 +1241,7 @@ func (x Expr) FirstFound(data any) (any, bool) {
 								switch rt.Kind() {
 								case reflect.Ptr, reflect.Slice, reflect.Struct, reflect.Array, reflect.Map:
 									stack = append(stack, v)
+									stack = append(stack, fi|descentChildFlag)
 								}
 							}
 						}
@@ -1266,6 +1269,7 @@ func (x Expr) FirstFound(data any) (any, bool) {
 								switch rt.Kind() {
 								case reflect.Ptr, reflect.Slice, reflect.Struct, reflect.Array, reflect.Map:
 									stack = append(stack, v)
+									stack = append(stack, fi|descentChildFlag)
 								}
 							}
 						}
